@@ -179,6 +179,10 @@ void LLC::modifier_function(LLC::ModifierFunctions mod_func) {
 }
 
 void LLC::add_xid_information(uint8_t xid_id, uint8_t llc_type_class, uint8_t receive_window) {
+    // Only applied if format is UNNUMBERED and function is XID
+    if (type() != LLC::UNNUMBERED || modifier_function() != LLC::XID) {
+        return;
+    }
     field_type xid(3);
     xid[0] = xid_id;
     xid[1] = llc_type_class;
